@@ -155,14 +155,14 @@ class Ctx:
         return c
 
 
-FIELD_SORTS = {"int": IntSort(), "bool": BoolSort()}
+FIELD_SORTS = {"int": IntSort(), "bool": BoolSort(), "seqv": Sq}
 
 
 def type_hint(ty):
     """contract type string -> (kind, hint)"""
     if ty in ("int", "bool"):
         return ty, None
-    if ty in ("seq", "tuple"):
+    if ty in ("seq", "tuple", "seqv"):
         return "seq", None
     if ty == "setv":
         return "set", None
@@ -468,7 +468,7 @@ class Exec:
             h = container.hint
             if h in ("set", "frozenset") or (h in CLASSES and CLASSES[h].isa == "set"):
                 return Select(self.hget(st, "$set", container.t), x)
-            if h in ("list", "deque"):
+            if h in ("list", "deque") or (h in CLASSES and CLASSES[h].isa == "list"):
                 return L.mem(self.hget(st, "$seq", container.t), x)
             if h == "dict":
                 return L.mem(self.hget(st, "$dkeys", container.t), x)
@@ -532,7 +532,7 @@ def _patch_engine():
             t0 = self.callee_target(txt)[0]
             return t0.startswith("pure:") or t0 in ("identity", "id")
         if isinstance(f, ast.Name):
-            if f.id in PURE_BUILTINS or f.id in SPEC_FUNCS:
+            if f.id in PURE_BUILTINS or f.id in SPEC_FUNCS or f.id.startswith("pure_"):
                 return True
             if f.id in ("list", "set", "dict", "reversed", "sorted"):
                 return False   # allocate
@@ -625,6 +625,9 @@ def _patch_engine():
                 return sv_bool(kind[1])
             if kind == "module":
                 return SV("py", py=("module", n))
+            if isinstance(kind, tuple) and kind[0] == "idset":
+                ids = [L.ibox(L.idof(L.sentinel(nm))) for nm in kind[1]]
+                return SV("set", self.def_set(lambda x: Or(*[x == i for i in ids])))
         if n in ("None",):
             return NONE
         if n == "NotImplemented":
@@ -681,6 +684,8 @@ def _patch_engine():
             return SV("int", t)
         if kind == "bool":
             return SV("bool", t)
+        if kind == "seq":
+            return SV("seq", t)
         return SV("v", t, hint)
     E.read_field = read_field
 
@@ -972,6 +977,8 @@ def _patch_engine():
             return self.pev(args[1], st, m)
         if isinstance(f, ast.Name):
             n = f.id
+            if n.startswith("pure_"):
+                return self.apply_pure(n[5:], [self.pev(a, st, m) for a in args], st)
             h = getattr(self, "sf_" + n, None)
             if h is not None and (n in SPEC_FUNCS or n in PURE_BUILTINS):
                 return h(node, st, m)
@@ -1808,6 +1815,8 @@ def _patch_exec():
                     raise OutOfSubset(f"store to undeclared field {tgt.attr}")
                 if ty == "int":
                     val = self.as_int(sv)
+                elif ty == "seqv":
+                    val = self.as_seq(sv, st2)
                 elif ty == "bool":
                     val = self.truth(sv, st2) if sv.kind != "bool" else sv.t
                 else:
@@ -2519,6 +2528,8 @@ def _patch_calls():
             if tgt.startswith("havoc:"):
                 # unknown side-effect-free-on-modelled-state call returning an unconstrained value of the given type
                 return self.ev_list(node.args, st, ctx, lambda svs, st2: k(self.fresh_sv("r", tgt[6:]), st2))
+            if tgt == "tuple":
+                return self.ev_list(node.args, st, ctx, lambda svs, st2: k(SV("tuple", items=list(svs)), st2))
             if tgt == "newdeque":
                 r, st2 = self.alloc_obj(st, "deque", "dq")
                 return k(r, self.hset(st2, "$seq", r.t, L.sempty))
@@ -2722,6 +2733,26 @@ def _patch_calls():
         s = self.hget(st, "$seq", recv.t)
         k(NONE, self.hset(st, "$seq", recv.t, L.cat(L.app(L.sempty, self.to_v(args[0])), s)))
     E.bm_deque_appendleft = bm_deque_appendleft
+
+    def bm_list___setitem__(self, recv, args, node, st, ctx, k):
+        s = self.hget(st, "$seq", recv.t)
+        n = L.slen(s)
+        if args[0].kind != "int":
+            raise OutOfSubset("list.__setitem__ with a non-integer index")
+        j = self.norm_index(args[0].t, n)
+        self.branch_checks([(And(0 <= j, j < n), "IndexError", node)], st, ctx,
+                           lambda st2: k(NONE, self.hset(st2, "$seq", recv.t, L.upd(s, j, self.to_v(args[1])))))
+    E.bm_list___setitem__ = bm_list___setitem__
+
+    def bm_list___delitem__(self, recv, args, node, st, ctx, k):
+        s = self.hget(st, "$seq", recv.t)
+        n = L.slen(s)
+        if args[0].kind != "int":
+            raise OutOfSubset("list.__delitem__ with a non-integer index")
+        j = self.norm_index(args[0].t, n)
+        self.branch_checks([(And(0 <= j, j < n), "IndexError", node)], st, ctx,
+                           lambda st2: k(NONE, self.hset(st2, "$seq", recv.t, L.cat(L.slc(s, IntVal(0), j), L.slc(s, j + 1, n)))))
+    E.bm_list___delitem__ = bm_list___delitem__
 
     def bm_list_remove(self, recv, args, node, st, ctx, k):
         s = self.hget(st, "$seq", recv.t)
